@@ -6,8 +6,9 @@
    crash points of an operation are the prefixes of its trace.
    I/O faults are outside the model: a call fails only for ENOENT/EEXIST reasons, the model then
    answers Err EIo and the theorems show that this does not happen.
-   u64 arithmetic is unbounded here (`log_rollover_ratio * size` can overflow u64 for absurd
-   ratios; that is outside the model and named in the evidence). *)
+   The rollover test uses the saturating u64 product, as the code does since the repair of the
+   overflow panic; every theorem is independent of the ratio (it only decides WHEN a rollover
+   happens). *)
 From Coq Require Import NArith List Bool.
 From Blue Require Import Mani.Model Mani.Fs.
 Import ListNotations.
@@ -30,6 +31,11 @@ Definition sys (c : call) (w : world) : option world :=
 (* Manifest::next_manifest_identifier: 1 + the largest backup index in the directory (0 if none) *)
 Definition next_manifest_identifier (s : fs) : N :=
   fold_left N.max (backup_ids (f_dir s)) 0 + 1.
+
+(* u64::saturating_mul: options.log_rollover_ratio.saturating_mul(in_memory_bytes) — ratio and size
+   are u64 in the code (ratio < 2^64, size < 2^64), here unbounded N clamped at u64::MAX *)
+Definition U64_MAX : N := 18446744073709551615.
+Definition sat_mul (a b : N) : N := N.min (a * b) U64_MAX.
 
 Definition same_inode (a b : fname) (s : fs) : bool :=
   match lookup a s, lookup b s with
@@ -94,7 +100,7 @@ Section WithCrc.
         | None => Err EIo
         | Some on_disk_bytes =>
             let in_memory_bytes := size (m_st m1) in
-            if (m_ratio m1 * in_memory_bytes <? on_disk_bytes) && negb was_empty
+            if (sat_mul (m_ratio m1) in_memory_bytes <? on_disk_bytes) && negb was_empty
             then rollover m1 w1
             else Ok (m1, w1)
         end
